@@ -342,4 +342,28 @@ theorem scale_vdot (u v : Vec d) (c : ℝ) : dotProduct u (c • v) = c * dotPro
 theorem scale_add_zeros (u : Vec d) (c : ℝ) : (0 : Vec d) + c • u = c • ((0 : Vec d) + u) := by
   simp
 
+/-! ### positions of a value in concatenated rows (LSH hash tables under partial_fit, law `where.hashes.vstack`) -/
+
+/-- `np.where(mask)[0]` for the mask `p x`: the positions of the elements satisfying `p`, ascending -/
+def positions {β : Type} (p : β → Bool) : List β → List ℕ
+  | [] => []
+  | x :: xs => (if p x then [0] else []) ++ (positions p xs).map (· + 1)
+
+theorem positions_append {β : Type} (p : β → Bool) (l1 l2 : List β) :
+    positions p (l1 ++ l2) = positions p l1 ++ (positions p l2).map (· + l1.length) := by
+  induction l1 with
+  | nil => simp [positions]
+  | cons x xs ih =>
+    simp only [List.cons_append, positions, ih, List.map_append, List.map_map, List.length_cons, List.append_assoc]
+    congr 2
+
+/-- the hash of every row (any row-wise function `code`), positions of the value `h`: stacking rows appends the
+    positions of the new rows shifted by the number of old rows -/
+theorem where_hashes_vstack {ρ : Type} [DecidableEq ρ] (code : Vec d → ρ) (A B : List (Vec d)) (h : ρ) :
+    positions (fun v => decide (v = h)) ((A ++ B).map code) =
+    positions (fun v => decide (v = h)) (A.map code) ++
+      (positions (fun v => decide (v = h)) (B.map code)).map (· + A.length) := by
+  rw [List.map_append, positions_append]
+  simp
+
 end SeqLaws
